@@ -1654,6 +1654,10 @@ class GroupBy:
 
         return_polars = self._values_is_polars(type_list)
 
+        if self.key_is_chunked:
+            # the codes of a chunked group key are local to each chunk
+            self._unify_group_key_chunks()
+
         if index_by_groups:
             indexer = self._group_sort_indexer
             result_index = self._build_group_sorted_index(common_index)
